@@ -42,6 +42,10 @@ CLAIMS['C16'] = ('proof',
 
 # properties whose level text is the EXPLANATION string of their rule module: id -> (technique, level note)
 TECH = {
+    'C01': ('CFG path counting with sign refinement, canonical-loop analysis, post-dominance (schedule/wait), exact preserved-value sets over integral conversion chains, linear normal forms of the block arithmetic, token automaton for the enkiTS running count, compile witnesses x 4 backends',
+            'Trusted: tbb::parallel_for and `omp parallel for` contracts; design section 4. One known finding (internal backend, counts >= 2^32, see known_findings.json). '
+            'Not decided: linearizability of the lock-free pipe and visibility of body effects under the hardware memory model (the pipe protocol order is checked, '
+            'not its sufficiency); behaviour of the user functor.'),
     'C02': ('CFG path / ordering / ownership analysis over the 4 tasking backend configurations; member-order rule; who-may-delete over ITaskSet overrides',
             'Trusted: backend contracts (tbb::task_arena::enqueue, task_group::run, std::thread, the enkiTS pipe invoke a submitted callable exactly once); '
             'no exception edges. Not decided: that an enqueued task eventually runs (liveness); std::packaged_task/std::future internals.'),
@@ -95,7 +99,7 @@ TECH = {
 }
 
 # built but not yet clean on /repo (fix pending): not claimed until then
-HOLD = {'C02'}
+HOLD = set()
 
 NOT_CLAIMED = {}
 
